@@ -18,6 +18,7 @@
 #include <shark/LinAlg/RegularizedKernelMatrix.h>
 #include <shark/Models/Kernels/GaussianRbfKernel.h>
 #include <shark/Models/Kernels/LinearKernel.h>
+#include <shark/Models/Kernels/PolynomialKernel.h>
 #include <shark/Algorithms/QP/QpMcSimplexDecomp.h>
 #include <shark/Algorithms/QP/QpMcBoxDecomp.h>
 #include <shark/Algorithms/QP/QpMcLinear.h>
@@ -27,6 +28,7 @@
 #include "common.hpp"
 #include <cfenv>
 #include <cstring>
+#include <algorithm>
 
 using namespace shark;
 
@@ -88,6 +90,217 @@ static std::string doTables(std::string const& name, std::size_t c, bool asRatio
 	return r;
 }
 
+
+// ---------------------------------------------------------------------------------------------
+// trainer level: `data`, `probes`, `train`
+// ---------------------------------------------------------------------------------------------
+struct World{
+	std::size_t n = 0, d = 0, k = 0, m = 0;
+	std::vector<RealVector> x;       // training inputs (integer points)
+	std::vector<unsigned int> y;
+	std::vector<RealVector> probes;
+} W;
+
+static McSvm parseType(std::string const& f, bool& ok){
+	ok = true;
+	if(f == "WW") return McSvm::WW; if(f == "CS") return McSvm::CS; if(f == "LLW") return McSvm::LLW;
+	if(f == "ATM") return McSvm::ATM; if(f == "ATS") return McSvm::ATS; if(f == "ADM") return McSvm::ADM;
+	if(f == "MMR") return McSvm::MMR; if(f == "RS") return McSvm::ReinforcedSvm; if(f == "OVA") return McSvm::OVA;
+	ok = false; return McSvm::WW;
+}
+static std::string g17(double v){ char b[40]; std::snprintf(b, sizeof b, "%.17g", v); return b; }
+
+static std::vector<std::size_t> makePerm(std::size_t n, std::uint64_t mode){
+	std::vector<std::size_t> p(n);
+	for(std::size_t i = 0; i != n; ++i) p[i] = i;
+	if(mode == 1) std::reverse(p.begin(), p.end());
+	else if(mode > 1){ vh::SplitMix64 r(mode); for(std::size_t i = n; i > 1; --i) std::swap(p[i-1], p[r.below(i)]); }
+	return p;
+}
+
+// independent dense lookup of a QpSparseArray entry (first match, else default), as documented
+static double sparseAt(QpSparseArray<double> const& a, std::size_t r, std::size_t col){
+	QpSparseArray<double>::Row const& row = a.row(r);
+	for(std::size_t b = 0; b != row.size; ++b) if(row.entry[b].index == col) return row.entry[b].value;
+	return row.defaultvalue;
+}
+
+// train F bias shrink cache C eps perm batch kernel
+static std::string doTrain(std::vector<std::string> const& t){
+	if(t.size() != 10 || W.n == 0) return "bad-op";
+	bool ok; McSvm type = parseType(t[1], ok); if(!ok) return "bad-op";
+	bool bias = t[2] == "1", shrink = t[3] == "1";
+	long cache = std::stol(t[4]);
+	double C = std::stod(t[5]), eps = std::stod(t[6]);
+	std::uint64_t permMode = std::stoull(t[7]);
+	std::size_t batch = std::stoul(t[8]);
+	std::string kern = t[9];
+	std::ostringstream os, orc;
+
+	std::vector<std::size_t> perm = makePerm(W.n, permMode);
+	std::vector<RealVector> xs(W.n); std::vector<unsigned int> ys(W.n);
+	for(std::size_t i = 0; i != W.n; ++i){ xs[i] = W.x[perm[i]]; ys[i] = W.y[perm[i]]; }
+	ClassificationDataset data = createLabeledDataFromRange(xs, ys, batch);
+	std::size_t classes = numberOfClasses(data);
+
+	LinearKernel<RealVector> lin;
+	PolynomialKernel<RealVector> poly(2, 1.0);
+	GaussianRbfKernel<RealVector> rbf(0.125);
+	AbstractKernelFunction<RealVector>* kernel = kern == "poly" ? (AbstractKernelFunction<RealVector>*)&poly
+		: kern == "rbf" ? (AbstractKernelFunction<RealVector>*)&rbf : (AbstractKernelFunction<RealVector>*)&lin;
+
+	CSvmTrainer<RealVector, double> trainer(kernel, C, bias);
+	trainer.setMcSvmType(type);
+	trainer.sparsify() = false;
+	trainer.shrinking() = shrink;
+	trainer.stoppingCondition().minAccuracy = eps;
+	trainer.stoppingCondition().maxIterations = 20000000ULL;
+	if(cache < 0) trainer.precomputeKernel() = true; else trainer.setCacheSize((std::size_t)cache);
+	KernelClassifier<RealVector> svm;
+	trainer.train(svm, data);
+	QpSolutionProperties prop = trainer.solutionProperties();
+	std::size_t outputs = svm.decisionFunction().outputShape().numElements();
+	os << "train classes=" << classes << " outputs=" << outputs << " iters=" << prop.iterations << " stop=" << (int)prop.type
+	   << " acc=" << g17(prop.accuracy) << " value=" << g17(prop.value) << " dec=";
+	for(std::size_t j = 0; j != W.m; ++j){
+		RealVector f = svm.decisionFunction()(W.probes[j]);
+		for(std::size_t c = 0; c != f.size(); ++c) os << (j + c ? "," : "") << g17(f(c));
+	}
+	// training-set decision values in ORIGINAL example order (for the cross-configuration comparison)
+	os << " tdec=";
+	{
+		std::vector<std::size_t> inv(W.n); for(std::size_t i = 0; i != W.n; ++i) inv[perm[i]] = i;
+		for(std::size_t o = 0; o != W.n; ++o){
+			RealVector f = svm.decisionFunction()(W.x[o]);
+			for(std::size_t c = 0; c != f.size(); ++c) os << (o + c ? "," : "") << g17(f(c));
+		}
+	}
+	if(prop.type != QpAccuracyReached && type != McSvm::OVA) orc << " !oracle solver-did-not-reach-accuracy";
+
+	RealMatrix const& A = svm.decisionFunction().alpha();
+	if(classes == 2){
+		// two-class reduction: every formulation must give exactly the plain binary machine
+		CSvmTrainer<RealVector, double> bin(kernel, C, bias);
+		bin.sparsify() = false; bin.shrinking() = shrink;
+		bin.stoppingCondition().minAccuracy = eps; bin.stoppingCondition().maxIterations = 20000000ULL;
+		if(cache < 0) bin.precomputeKernel() = true; else bin.setCacheSize((std::size_t)cache);
+		KernelClassifier<RealVector> bsvm; bin.train(bsvm, data);
+		RealMatrix const& B = bsvm.decisionFunction().alpha();
+		bool same = A.size1() == B.size1() && A.size2() == B.size2() && A.size2() == 1;
+		for(std::size_t i = 0; same && i != A.size1(); ++i) same = A(i,0) == B(i,0);
+		if(bias) same = same && svm.decisionFunction().offset().size() == 1 && svm.decisionFunction().offset()(0) == bsvm.decisionFunction().offset()(0);
+		if(!same) orc << " !oracle two-class-not-binary";
+		// binary dual feasibility: 0 <= y_i a_i <= C, sum a = 0 with bias
+		double sum = 0;
+		for(std::size_t i = 0; i != A.size1(); ++i){
+			double a = A(i,0) * (ys[i] ? 1.0 : -1.0); sum += A(i,0);
+			if(a < 0 || a > C) orc << " !oracle binary-box";
+		}
+		if(bias && std::fabs(sum) > 1e-9 * (1 + C * W.n)) orc << " !oracle binary-sum";
+		os << " path=binary";
+	}
+	else if(type == McSvm::OVA){
+		// one-versus-all: column c = binary machine for class c against the rest
+		bool same = A.size2() == classes;
+		for(unsigned int c = 0; same && c != classes; ++c){
+			ClassificationDataset bd = oneVersusRestProblem(data, c);
+			CSvmTrainer<RealVector, double> bin(kernel, C, bias);
+			bin.sparsify() = false; bin.shrinking() = shrink;
+			bin.stoppingCondition().minAccuracy = eps; bin.stoppingCondition().maxIterations = 20000000ULL;
+			if(cache < 0) bin.precomputeKernel() = true; else bin.setCacheSize((std::size_t)cache);
+			KernelClassifier<RealVector> bsvm; bin.train(bsvm, bd);
+			RealMatrix const& B = bsvm.decisionFunction().alpha();
+			for(std::size_t i = 0; same && i != A.size1(); ++i) same = A(i,c) == B(i,0);
+			if(bias) same = same && svm.decisionFunction().offset()(c) == bsvm.decisionFunction().offset()(0);
+		}
+		if(!same) orc << " !oracle ova-not-binary-per-class";
+		os << " path=ova";
+	}
+	else{
+		// raw dual variables: the same private solve the trainer runs, then independent oracles
+		bool sumToZero = !(type == McSvm::WW || type == McSvm::CS || type == McSvm::ReinforcedSvm);
+		bool simplex = type == McSvm::CS || type == McSvm::ATM || type == McSvm::ADM || type == McSvm::MMR;
+		QpSparseArray<double> nu, M;
+		if(type == McSvm::WW || type == McSvm::CS) trainer.setupMcParametersWWCS(nu, M, classes);
+		else if(type == McSvm::LLW || type == McSvm::ADM) trainer.setupMcParametersADMLLW(nu, M, classes);
+		else if(type == McSvm::MMR) trainer.setupMcParametersMMR(nu, M, classes);
+		else trainer.setupMcParametersATMATS(nu, M, classes);
+		std::size_t P = M.width();
+		RealMatrix linear(W.n, P, 1.0);
+		if(type == McSvm::ReinforcedSvm) for(std::size_t i = 0; i != W.n; ++i) linear(i, ys[i]) = classes - 1.0;
+		RealMatrix alpha(W.n, P, 0.0); RealVector b(classes, 0.0);
+		if(simplex) trainer.solveMcSimplex(sumToZero, nu, M, linear, alpha, b, data);
+		else trainer.solveMcBox(sumToZero, nu, M, linear, alpha, b, data);
+		// (1) constraints
+		double slack = 1e-12 * C;
+		for(std::size_t i = 0; i != W.n; ++i){
+			double s = 0;
+			for(std::size_t p = 0; p != P; ++p){
+				double a = alpha(i,p); s += a;
+				if(a < 0 || a > C) orc << " !oracle box-constraint i=" << i << " p=" << p << " a=" << g17(a);
+			}
+			if(simplex && s > C + slack * P) orc << " !oracle simplex-constraint i=" << i << " sum=" << g17(s);
+		}
+		// (2) alpha -> decision function map: A(i,c) = sum_p nu(P*y_i+p, c) alpha(i,p)
+		bool mapok = A.size1() == W.n && A.size2() == classes;
+		for(std::size_t i = 0; mapok && i != W.n; ++i) for(std::size_t c = 0; c != classes; ++c){
+			double sum = 0; for(std::size_t p = 0; p != P; ++p) sum += sparseAt(nu, P * ys[i] + p, c) * alpha(i,p);
+			if(sum != A(i,c)) mapok = false;
+		}
+		if(!mapok) orc << " !oracle decision-map";
+		if(bias) for(std::size_t c = 0; c != classes; ++c) if(b(c) != svm.decisionFunction().offset()(c)) orc << " !oracle bias-copy";
+		// (3) independently recomputed gradient and KKT violation (plain loops, own kernel evaluations)
+		double viol = 0, obj = 0;
+		for(std::size_t i = 0; i != W.n; ++i){
+			double s = 0; for(std::size_t p = 0; p != P; ++p) s += alpha(i,p);
+			double up = -1e100, down = 1e100;
+			for(std::size_t p = 0; p != P; ++p){
+				double g = linear(i,p);
+				for(std::size_t c = 0; c != classes; ++c) g -= sparseAt(nu, P * ys[i] + p, c) * b(c);
+				double lin_ip = g;
+				for(std::size_t j = 0; j != W.n; ++j){
+					double kij = kernel->eval(xs[i], xs[j]);
+					for(std::size_t q = 0; q != P; ++q)
+						g -= sparseAt(M, classes * (ys[i] * P + p) + ys[j], q) * kij * alpha(j,q);
+				}
+				obj += 0.5 * (g + lin_ip) * alpha(i,p);
+				double a = alpha(i,p);
+				if(!simplex){
+					if(a < C) viol = std::max(viol, g);
+					if(a > 0) viol = std::max(viol, -g);
+				}else{
+					up = std::max(up, g);
+					if(a > 0) down = std::min(down, g);
+				}
+			}
+			if(simplex){
+				viol = std::max(viol, -down);
+				if(s < C - slack * P) viol = std::max(viol, up); else viol = std::max(viol, up - down);
+			}
+		}
+		os << " path=mc P=" << P << " kkt=" << g17(viol) << " obj=" << g17(obj) << " bias=";
+		for(std::size_t c = 0; c != classes; ++c) os << (c ? "," : "") << g17(b(c));
+		os << " alpha=";
+		{
+			std::vector<std::size_t> inv(W.n); for(std::size_t i = 0; i != W.n; ++i) inv[perm[i]] = i;
+			for(std::size_t o = 0; o != W.n; ++o) for(std::size_t p = 0; p != P; ++p) os << (o + p ? "," : "") << g17(alpha(inv[o], p));
+		}
+	}
+	return os.str() + orc.str();
+}
+
+// tables for the decomposition-level harness (c16s.cpp): F in {WWCS, ATMATS, ADMLLW, MMR}
+void c16MakeTables(std::string const& f, std::size_t c, QpSparseArray<double>& nu, QpSparseArray<double>& M){
+	LinearKernel<RealVector> kernel;
+	CSvmTrainer<RealVector, double> trainer(&kernel, 1.0, false);
+	if(f == "WWCS") trainer.setupMcParametersWWCS(nu, M, c);
+	else if(f == "ATMATS") trainer.setupMcParametersATMATS(nu, M, c);
+	else if(f == "ADMLLW") trainer.setupMcParametersADMLLW(nu, M, c);
+	else if(f == "MMR") trainer.setupMcParametersMMR(nu, M, c);
+	else throw std::runtime_error("unknown table family");
+}
+bool c16BoxOp(std::vector<std::string> const& t, std::string& out);
+
 int main(int argc, char** argv){
 	std::string line;
 	while(std::getline(std::cin, line)){
@@ -95,7 +308,26 @@ int main(int argc, char** argv){
 		if(t.empty()){ std::cout << "\n"; continue; }
 		if((t[0] == "tables" || t[0] == "tablesq") && t.size() == 3){
 			std::cout << doTables(t[1], std::stoul(t[2]), t[0] == "tablesq") << "\n";
-		}else std::cout << "bad-op\n";
+		}else if(t[0] == "data" && t.size() >= 4){
+			std::vector<std::size_t> a;
+			if(!vh::allNat(t, 1, a) || a.size() != 3 + a[0]*a[1] + a[0]){ std::cout << "bad-op\n"; continue; }
+			W.n = a[0]; W.d = a[1]; W.k = a[2]; W.x.assign(W.n, RealVector(W.d)); W.y.assign(W.n, 0);
+			for(std::size_t i = 0; i != W.n; ++i) for(std::size_t j = 0; j != W.d; ++j) W.x[i](j) = (double)a[3 + i*W.d + j] - 8.0;
+			for(std::size_t i = 0; i != W.n; ++i) W.y[i] = (unsigned int)a[3 + W.n*W.d + i];
+			std::cout << "data n=" << W.n << " d=" << W.d << "\n";
+		}else if(t[0] == "probes" && t.size() >= 2){
+			std::vector<std::size_t> a;
+			if(!vh::allNat(t, 1, a) || a.size() != 1 + a[0]*W.d){ std::cout << "bad-op\n"; continue; }
+			W.m = a[0]; W.probes.assign(W.m, RealVector(W.d));
+			for(std::size_t i = 0; i != W.m; ++i) for(std::size_t j = 0; j != W.d; ++j) W.probes[i](j) = (double)a[1 + i*W.d + j] - 8.0;
+			std::cout << "probes m=" << W.m << "\n";
+		}else if(t[0] == "train"){
+			std::cout << doTrain(t) << std::endl;
+		}else{
+			std::string out;
+			if(c16BoxOp(t, out)) std::cout << out << std::endl;
+			else std::cout << "bad-op\n";
+		}
 	}
 	return 0;
 }
